@@ -253,6 +253,7 @@ var specC27 = vstat.Spec[c27Case]{
 	Assumptions: []string{"in-order processing per stream: an honest marker message after the script bounds the wait (no timing used as an oracle)"},
 	Gen:         genC27,
 	Check:       checkC27,
+	Inflight:    true,
 }
 
 func TestC27(t *testing.T)       { vstat.Check(t, specC27) }
